@@ -90,6 +90,7 @@ pub const FAMILIES: &[&str] = &[
     "hostile-label-then-16-pointers-ladder",
     "hostile-long-label-run-odd-steps",
     "hostile-dname-into-pointer-chain",
+    "hostile-lying-count-beyond-65536",
 ];
 
 /// Families >= this index are expected to be rejected.
@@ -176,6 +177,39 @@ pub fn adversarial(rng: &mut Rng, fam: usize, target_len: usize) -> Vec<u8> {
                 n += 1;
             }
             a.b[6..8].copy_from_slice(&n.to_be_bytes());
+            a.done()
+        }
+        15 => {
+            // ANCOUNT = 65535 although far fewer records are there, every record naming through the longest
+            // admissible chain, and (for the largest size) a compressed owner name placed just above offset 65536
+            // such that "its end, in 16 bits" is the end of the first record's owner name: a cursor that wraps
+            // there would go round and round until the count is used up. Refused at the end of the data today.
+            let (mut a, top) = chain_base(rng, 16, 127);
+            let first_owner_end = 12 + 7 + 2; // header, "q." + type/class, the chain record's owner pointer
+            let mut n = 1u16;
+            if target_len >= 60_000 {
+                let at = 65536 + first_owner_end - 2;
+                while a.pos() + 16 + 13 <= at {
+                    a.ptr(top).rrfix(T_A, 1, 4).raw(&[1, 2, 3, 4]);
+                    n += 1;
+                }
+                let left = at - a.pos();
+                if left >= 13 {
+                    a.ptr(12).rrfix(T_TXT, 1, (left - 12) as u16).raw(&vec![0x3fu8; left - 12]);
+                    n += 1;
+                }
+                for _ in 0..3 {
+                    a.ptr(top).rrfix(T_A, 1, 4).raw(&[1, 2, 3, 4]);
+                    n += 1;
+                }
+            } else {
+                while a.pos() + 40 < target_len {
+                    a.ptr(top).rrfix(T_A, 1, 4).raw(&[1, 2, 3, 4]);
+                    n += 1;
+                }
+            }
+            let _ = n;
+            a.b[6..8].copy_from_slice(&65535u16.to_be_bytes());
             a.done()
         }
         8 | 9 | 10 | 11 | 12 | 13 | 14 => {
